@@ -13,7 +13,6 @@ import (
 	"time"
 
 	tmmath "github.com/tendermint/tendermint/libs/math"
-	"github.com/tendermint/tendermint/light"
 	tmproto "github.com/tendermint/tendermint/proto/tendermint/types"
 	"github.com/tendermint/tendermint/types"
 	"pgregory.net/rapid"
@@ -629,11 +628,9 @@ func TestTrusting(t *testing.T) {
 		}
 		ref := refTally(trusted, chain, sc.commit, false)
 
+		// "all trust fractions": the fraction type holds uint64s, so values at and above 2^63 belong to the domain
+		// (soundness only: nothing may be accepted below the level; completeness is demanded for representable levels)
 		inDomain := true
-		if level.Numerator >= u63 || level.Denominator >= u63 {
-			// outside int64: part of the callers' domain only if the light client's own validation lets it through
-			inDomain = light.ValidateTrustLevel(level) == nil
-		}
 		warmed := warmUp(t, sc)
 		subject, wire := viaWire(t, trusted, "wire")
 		err := subject.VerifyCommitLightTrusting(chain, sc.commit, level)
